@@ -464,6 +464,11 @@ where
     fn span_data(&'a self, id: &span::Id) -> Option<Self::Data> {
         self.inner.span_data(id)
     }
+
+    #[cfg(feature = "registry")]
+    fn register_filter(&mut self) -> crate::filter::FilterId {
+        self.inner.register_filter()
+    }
 }
 
 // ===== impl CollectorBuilder =====
